@@ -121,4 +121,13 @@ Definition c12_check (c : c12case) : bool :=
   | _, _ => false
   end.
 
-Definition c12_show (c : c12case) := c12_out c.
+(* compact rendering for failing cases: member names only (values can be large) *)
+Definition show_str (s : str) : string := string_of_list_ascii (map ascii_of_N s).
+Definition show_kd (d : kd) : list string := map (fun kv => show_str (fst kv)) d.
+Definition c12_show (c : c12case) : res (list (list string)) + res export + list (str * bool * bool) :=
+  match c12_out c with
+  | inl (inl (Ok l)) => inl (inl (Ok (map show_kd l)))
+  | inl (inl (Err e)) => inl (inl (Err e))
+  | inl (inr r) => inl (inr r)
+  | inr f => inr f
+  end.
